@@ -15,7 +15,7 @@ package xbus
 //@
 //@ func (*socket).SendMsg
 //@   loop 1 complete
-//@   at if#5.then assert p.p.ID() == ite(len(old(m.Header)) == 4, be32(old(m.Header)), 0)
+//@   at if#3.then assert p.p.ID() == ite(len(old(m.Header)) == 4, be32(old(m.Header)), 0)
 //@   at call:Clone#1 assert p.p.ID() != ite(len(old(m.Header)) == 4, be32(old(m.Header)), 0)
 //@   at select#1 assert len(old(m.Header)) == 4 ==> len(m.Header) == 0
 //@
